@@ -2,11 +2,12 @@
 structural obligations of individual passes (list rebuilding, memo invalidation)."""
 import ast
 import itertools
+import re
 from typing import Dict, List, Optional, Set, Tuple
 
 from ..model import Repo, ClassInfo, FunctionInfo, AnalysisError, walk_no_nested, src, is_self_attr, call_name, dotted, parent, \
     ancestors, enclosing_stmt
-from ..core import Ob, Rule, Mutant, mutate_module, find_def, replace_node, remove_stmt
+from ..core import Ob, Rule, Mutant, mutate_module, find_def, replace_node, remove_stmt, inconclusive
 from ..dataflow import Defs
 from ..cfg import cfg_of, CFG
 
@@ -558,38 +559,94 @@ def mut_rebuilders(repo: Repo) -> List[Mutant]:
 
 
 # ------------------------------------------------------------------ memo stores are invalidated on reassignment
+def _is_symbol_filter(dc: ast.DictComp, store_name: Optional[str]) -> Optional[Tuple[bool, str]]:
+    """(drops every entry that mentions the variable?, filter text) for `{k: v for k, v in S.items() if V not in <symbols of k>}`"""
+    if not dc.generators:
+        return None
+    g = dc.generators[0]
+    if not (isinstance(g.iter, ast.Call) and call_name(g.iter) == "items"):
+        return None
+    if store_name is not None and src(g.iter.func.value) != store_name:
+        return None
+    cond = " and ".join(src(x) for x in g.ifs)
+    if "not in" not in cond:
+        return None
+    key = g.target.elts[0].id if isinstance(g.target, ast.Tuple) and isinstance(g.target.elts[0], ast.Name) else None
+    whole = key is not None and re.search(r"\b%s\.get_free_symbols\(\)" % key, cond) is not None
+    return whole, cond
+
+
 def rule_memo_invalidation(repo: Repo) -> List[Ob]:
-    """A dict that memoises facts about conditions across the assignments of a section must drop, after
-    (or before) every assignment, the entries that mention the assigned variable."""
+    """A dict that memoises facts about conditions across the assignments of a section must drop, at
+    every assignment, the entries whose key mentions the assigned variable."""
+    import re as _re
     obs = []
     for rp, qn in (("program/transformer/conditions_reducer.py", "ConditionsReducer._reduce_conditions"),
                    ("program/transformer/conditions_normalizer.py", "ConditionsNormalizer._normalize_conditions")):
         m = repo.function(rp, qn)
         loops = [n for n in walk_no_nested(m.node) if isinstance(n, ast.For) and isinstance(n.target, ast.Name)]
+        key0 = f"{rp}::{qn}"
         if not loops:
-            raise AnalysisError(f"{qn}: section loop not found")
+            obs.append(inconclusive("B-memo", key0 + "::store", rp, m.node.lineno, qn, "section loop not recognised"))
+            continue
         loop = loops[0]
         elem = loop.target.id
-        # the store: a local initialised to {} before the loop and passed to a call inside the loop
         stores = [t.id for st in m.node.body if isinstance(st, (ast.Assign, ast.AnnAssign))
                   for t in (st.targets if isinstance(st, ast.Assign) else [st.target])
                   if isinstance(t, ast.Name) and isinstance(st.value, ast.Dict) and not st.value.keys]
-        used = [s for s in stores if any(isinstance(c, ast.Call) and any(isinstance(a, ast.Name) and a.id == s for a in c.args) for c in ast.walk(loop))]
+        used = [s_ for s_ in stores if any(isinstance(c, ast.Call) and any(isinstance(a, ast.Name) and a.id == s_ for a in c.args) for c in ast.walk(loop))]
         if not used:
-            raise AnalysisError(f"{qn}: memo store not found")
+            obs.append(inconclusive("B-memo", key0 + "::store", rp, loop.lineno, qn, "memo store not recognised"))
+            continue
         store = used[0]
-        ok = False
-        why = f"`{store}` is never filtered inside the loop"
-        for n in loop.body:
-            if isinstance(n, ast.Assign) and any(isinstance(t, ast.Name) and t.id == store for t in n.targets) and isinstance(n.value, ast.DictComp):
-                dc = n.value
-                g = dc.generators[0]
-                from_store = isinstance(g.iter, ast.Call) and call_name(g.iter) == "items" and src(g.iter.func.value) == store
-                cond = " and ".join(src(x) for x in g.ifs)
-                mentions = f"{elem}.variable" in cond and "not in" in cond and "get_free_symbols" in cond
-                ok = from_store and mentions
-                why = "entries mentioning the assigned variable are dropped at every assignment" if ok else f"filter `{cond}` does not drop entries that mention {elem}.variable"
-        obs.append(Ob("B-memo", f"{rp}::{qn}::{store}", rp, loop.lineno, qn, ok, f"memo `{store}`: {why}"))
+        key = f"{key0}::{store}"
+        c = cfg_of(m.node)
+        head = next((n for n in c.nodes if n.kind == "test" and n.stmt is loop), None)
+        verdict, why, fnode = None, f"`{store}` is re-bound in a way that is not recognised", None
+        rebinds = [n for n in ast.walk(loop) if isinstance(n, ast.Assign) and any(isinstance(t, ast.Name) and t.id == store for t in n.targets)]
+        if not rebinds:
+            verdict, why = False, f"`{store}` is never filtered inside the loop: an alias computed before a variable was reassigned is reused after the reassignment"
+        for n in rebinds:
+            fnode = n
+            if isinstance(n.value, ast.DictComp):
+                r = _is_symbol_filter(n.value, store)
+                if r is None:
+                    continue
+                whole, cond = r
+                mentions = f"{elem}.variable" in cond
+                if whole and mentions:
+                    verdict, why = True, "entries whose key mentions the assigned variable are dropped at every assignment"
+                else:
+                    verdict, why = False, f"filter `{cond}` does not drop every entry that mentions {elem}.variable (all free symbols of the key must be consulted)"
+            elif isinstance(n.value, ast.Call):
+                # helper(store, assign.variable) defined in the same module/class
+                callee = None
+                f = n.value.func
+                if isinstance(f, ast.Attribute) and isinstance(f.value, ast.Name) and f.value.id in ("self", "cls", m.cls.name if m.cls else ""):
+                    callee = m.cls.find_method(f.attr) if m.cls else None
+                elif isinstance(f, ast.Name):
+                    rr = repo.resolve_name(m.module, f.id)
+                    callee = rr[1] if rr and rr[0] == "func" else None
+                passes_var = any(f"{elem}.variable" in src(a) for a in n.value.args)
+                if callee is not None:
+                    dcs = [x for x in ast.walk(callee.node) if isinstance(x, ast.DictComp)]
+                    for dc in dcs:
+                        r = _is_symbol_filter(dc, None)
+                        if r is not None:
+                            whole, cond = r
+                            if whole and passes_var:
+                                verdict, why = True, f"entries mentioning the assigned variable are dropped at every assignment (through {callee.qualname})"
+                            elif not whole:
+                                verdict, why = False, f"filter `{cond}` in {callee.qualname} does not consult all free symbols of the key"
+        if verdict is True and head is not None and fnode is not None:
+            fn_node = c.node_of(fnode)
+            body_entries = [bb for bb, lab in c.succ[head] if lab is True]
+            if fn_node is not None and any(bb is not fn_node and c.reachable(bb, head, avoid={fn_node}) for bb in body_entries):
+                verdict, why = False, f"the invalidation of `{store}` is skipped on some path through the loop body (it must run for every assignment)"
+        if verdict is None:
+            obs.append(inconclusive("B-memo", key, rp, loop.lineno, qn, why))
+        else:
+            obs.append(Ob("B-memo", key, rp, loop.lineno, qn, verdict, f"memo `{store}`: {why}"))
     return obs
 
 
@@ -616,5 +673,5 @@ RULES = {
     "ORDER": Rule("B-pass-order", rule_pass_order, 40, "on every path of normalize_program each pass finds its preconditions (flat sections, fresh program info, provider passes) established, and the program info is complete at the end", mut_pass_order),
     "ACTIONS": Rule("B-actions", rule_actions, 8, "in every CLI action a parsed program reaches the recurrence builders / moment functions only through normalize_program", mut_actions),
     "REBUILD": Rule("B-rebuild", rule_rebuilders, 3, "loops that rebuild a program section keep every assignment on every path (or raise)", mut_rebuilders),
-    "MEMO": Rule("B-memo", rule_memo_invalidation, 2, "condition memo stores are invalidated for the assigned variable at every assignment", mut_memo),
+    "MEMO": Rule("B-memo", rule_memo_invalidation, 2, "condition memo stores are invalidated for the assigned variable at every assignment", mut_memo, soft=True),
 }
